@@ -13,6 +13,58 @@ TB = ("Trusted: Lean 4.33 kernel; axioms propext/Classical.choice/Quot.sound onl
       "gcc/glibc/ASan; the C harness's abstraction functions and the script generators.")
 
 CLAIMED = {
+    "C06": {
+        "design_ref": "DESIGN.md 4/C06",
+        "text": "Lean 4 theorems over a labelled transition system with one micro-step per atomic operation / non-atomic access of "
+                "memory.c's share, reset, weak-from, lock (with the flag spin), weak-reset and use, for ANY number of threads, ANY "
+                "programs and ANY schedule: inductive counting invariant, clear/free at most once on every trace and exactly once when "
+                "all threads finished with no owner left, no access to a dead block, an owner keeps the memory live until its own "
+                "reset, a successful lock yields live memory, bookkeeping accessed only by reference holders, race freedom in the SC "
+                "model, lock holder never blocked, no deadlock, decreasing measure, termination under fair and round-robin "
+                "schedulers. Tied to /repo on every run: unmodified src/memory.c compiled against shadow <stdatomic.h>/<sched.h>/"
+                "<stdlib.h>, threads as coroutines switched at every atomic call, a covering set of schedules of all 2-thread and "
+                "selected 3/4-thread scenarios (every reachable transition) plus random schedules replayed on real code and model, "
+                "compared step by step (operation, location, observed value, events); ownership-ledger oracle + ASan.",
+        "note": TB + " Theorems are about sequentially consistent interleavings; soundness for real executions rests on C11 DRF-SC "
+                "for seq_cst atomics (trusted) together with the proved race freedom. The shadow headers and the ucontext scheduler are trusted.",
+        "technique": "Lean 4 proof (inductive invariant over all schedules, measure for progress) + per-step trace correspondence under a deterministic scheduler",
+    },
+    "C07": {
+        "design_ref": "DESIGN.md 4/C07",
+        "text": "Lean 4 theorems over a functional model of heap.c (fls mask loop, bit-path navigation, sift-up/down with the C tie "
+                "rules): fls = log2 for all 64-bit values, path/slot numbering bijection, findSlot reaches the level-order position on a "
+                "complete tree, Inv = heap order ∧ completeness preserved by push and pop, get/pop return a held maximum and pop removes "
+                "exactly it (multiset equation), NULL on empty, size = count, run_inv/run_max over arbitrary push/pop/clear histories. "
+                "Tied to /repo by differential execution (closure over all shapes up to a small size, drained after every transition, "
+                "all short histories, random histories to 1000 live elements) comparing the level-order dump with ids, results, size; "
+                "the harness checks every parent link and completeness; reference-multiset oracle.",
+        "note": TB + " promote_child's six-neighbour relinking is modelled as exchanging two elements' positions (links checked by the harness on every explored state); theorems carry size+1 < 2^64.",
+        "technique": "Lean 4 proof (invariant by induction over operation lists) + model/implementation correspondence check",
+    },
+    "C17": {
+        "design_ref": "DESIGN.md 4/C17",
+        "text": "Lean 4 theorems: hashDiv_lt; a binary32 model on scaled naturals (round to 24 significant bits, ties to even) with "
+                "rnd_mono/fixed/faithful/nearest, frac_le and hashMul_lt: for ALL naturals k and m >= 1 the modelled cstl_hash_mul "
+                "is < m (and < 2^64); table half: for an arbitrary hash function every bucket index used is in range and the keyed "
+                "operation aborts iff a consulted result is out of range. Tied to /repo by executing the compiled functions and the "
+                "model on the float grid (every exponent, boundary mantissas, smallest m per float), SIZE_MAX neighbours and 10^5-10^6 "
+                "random pairs in both the ASan and the release build, and by running every keyed entry point with out-of-range hash "
+                "results under ASan (SIGABRT expected).",
+        "note": TB + " That the FPU implements IEEE-754 binary32 round-to-nearest-even with FLT_EVAL_METHOD == 0 is trusted (asserted by the harness, validated by the value-exact comparison).",
+        "technique": "Lean 4 proof (arithmetic on scaled naturals, all inputs) + value-exact correspondence check",
+    },
+    "C18": {
+        "design_ref": "DESIGN.md 4/C18",
+        "text": "Translator-based: on every run tools/linktab.py rebuilds libcstl.a/.so from a scratch copy of /repo's working tree and "
+                "regenerates, from nm and the clang AST, the tables of symbols each public header defines/declares and the library "
+                "provides (lean/Cstl/Gen/LinkTab.lean); the kernel re-checks tables_ok : TablesOK tab (decide) and the general theorem "
+                "link_ok : TablesOK tab -> every program (any non-empty list of TUs, each any list of headers, any order, repetition) "
+                "links without duplicate or undefined symbols. In addition every configuration the property lists (each header alone, "
+                "every ordered pair, all together, one and two TUs, .a and .so, project flags + -Werror, address-of clients) is compiled, "
+                "linked and run.",
+        "note": TB + " That each configuration compiles is decided by running gcc over the property's finite configuration list, not by a theorem; the link model (strong definitions, declared functions) and the nm/clang table extraction are trusted.",
+        "technique": "Lean 4 proof over translator-generated symbol tables (regenerated from the source each run) + exhaustive compile/link enumeration",
+    },
     "C12": {
         "design_ref": "DESIGN.md 4/C12",
         "text": "Lean 4 theorems over a link-level model of dlist.c (both link fields, one update per C assignment; abstraction IsDL: "
